@@ -23,7 +23,7 @@ MayRefuse == {"isbn.to_isbn10", "de.stnr.to_country_number", "it.aic.to_base32",
 NoTarget == {"meid.to_pseudo_esn", "pe.ruc.to_dni"}
 
 Embeds(row, v, d, opt) ==
-  CASE row = "isbn.to_isbn13" -> IF Len(v) = 13 THEN d = v
+  CASE row \in {"isbn.to_isbn13", "isbn.format_convert", "isbn.validate_convert"} -> IF Len(v) = 13 THEN d = v
                                  ELSE Len(d) = 13 /\ Slice(d, 1, 3) = <<57, 55, 56>> /\ Slice(d, 4, 12) = Slice(v, 1, 9)
     [] row = "isbn.to_isbn10" -> IF Len(v) = 10 THEN d = v ELSE Len(d) = 10 /\ Slice(d, 1, 9) = Slice(v, 4, 12)
     [] row = "ismn.to_ismn13" -> IF Len(v) = 13 THEN d = v ELSE d = <<57, 55, 57, 48>> \o Slice(v, 2, 10)
